@@ -23,7 +23,7 @@ SPEC = {
              "rule whose marker bit reveals rejection, #dN values are assembled in batches when the predicate accepts and "
              "alone when it rejects; non-trivial = cell within 4 of a range boundary (or the sized-literal width boundary "
              "for #d) or any rejected cell; distinct = distinct (kind, N, v, spelling)"),
-    "monitors": ["typed-accept-reject", "typed-bits", "typed-reject-alone", "data-accept", "data-reject-alone", "wide-boundaries"],
+    "monitors": ["typed-accept-reject", "typed-bits", "typed-reject-alone", "typed-unused-parameter", "data-accept", "data-reject-alone", "wide-boundaries"],
     "min_nontrivial": {"quick": 3000, "thorough": 50000},
     "assumptions": ["the fallback rule `t {x} => 0b0 @ x`(N+9)` is only taken when the typed rule's constraint fails (smallest encoding wins)"],
 }
@@ -79,9 +79,13 @@ def is_known_n0(kind, n, v):
     return n == 0 and v == 0
 
 
-def typed_program(kind, n, values, how):
+def typed_program(kind, n, values, how, unused=False):
     consts = {}
-    lines = ["#ruledef", "{", "    t {x: %s%d} => 0b1 @ x" % (kind, n), "    t {x} => 0b0 @ x`%d" % (n + 9), "}"]
+    if unused:
+        # the parameter's value is not used by the production: the range check must still apply
+        lines = ["#ruledef", "{", "    t {x: %s%d} => 0b1" % (kind, n), "    t {x} => 0b00", "}"]
+    else:
+        lines = ["#ruledef", "{", "    t {x: %s%d} => 0b1 @ x" % (kind, n), "    t {x} => 0b0 @ x`%d" % (n + 9), "}"]
     for v in values:
         text, _ = spell(v, how, consts)
         lines.append("t " + text)
@@ -114,6 +118,34 @@ def cell_violation(ctx, kind, n, v, how, what, job, expected, observed):
     sig = {"kind": kind, "N": n, "v": v, "what": what} if is_known_n0(kind, n, v) else \
         {"kind": kind, "N": n, "what": what, "boundary": near_boundary(kind if kind != "d" else "i", n, v)}
     ctx.violation("range-predicate", sig, job, expected, observed, note="spelling=%s v=%d" % (how, v))
+
+
+def run_typed_unused(ctx, worker, kind, n, values, how):
+    """Variant in which the production ignores the parameter (marker 1 = accepted, 00 = rejected)."""
+    src = typed_program(kind, n, values, how, unused=True)
+    job = lib.asm_job({"main.asm": src}, want=[])
+    rec = worker.run(job)
+    ctx.evaluated(len(values))
+    if lib.abnormal(rec) or not lib.ok(rec):
+        ctx.excluded += len(values)
+        return
+    nbits, value = lib.out_bits(rec)
+    bits = lib.bits_str(nbits, value)
+    pos = 0
+    for v in values:
+        ctx.monitor("typed-unused-parameter")
+        if pos >= len(bits):
+            ctx.violation("range-predicate", {"kind": kind, "N": n, "what": "undecodable"}, job, "marker stream", {"len": nbits})
+            return
+        acc = bits[pos] == "1"
+        pos += 1 if acc else 2
+        want = accepts(kind, n, v)
+        if acc != want:
+            sig = {"kind": kind, "N": n, "v": v, "what": "rejected-in-range"} if is_known_n0(kind, n, v) and not acc else \
+                {"kind": kind, "what": "accepted-out-of-range" if acc else "rejected-in-range", "parameter_unused_by_production": True}
+            ctx.violation("range-predicate", sig, job, {"accepted": want}, {"accepted": acc}, note="spelling=%s v=%d N=%d" % (how, v, n))
+        elif near_boundary(kind, n, v):
+            ctx.nontrivial_case(repr((kind, n, v, how, "unused")).encode())
 
 
 def run_typed(ctx, worker, kind, n, values, how):
@@ -273,6 +305,9 @@ def shard(ctx):
         if kind != "d":
             for i in range(0, len(values), 400):
                 run_typed(ctx, worker, kind, n, values[i:i + 400], how)
+            if how == "dec":
+                for i in range(0, len(values), 400):
+                    run_typed_unused(ctx, worker, kind, n, values[i:i + 400], how)
             alone = [v for v in values if near_boundary(kind, n, v)]
             rejected = [v for v in values if not accepts(kind, n, v) and not near_boundary(kind, n, v)]
             alone += rng.sample(rejected, min(len(rejected), 6))
